@@ -63,8 +63,8 @@ let parse_data_tok (t : string) : op =
   OpData (dir_of_char t.[1], chars_of_hex (tail_from t 4), t.[2] = '1')
 
 let tok_of_oev = function
-  | PHeader (d, es) -> Printf.sprintf "p%ch%d:ok" (char_of_dir d) (if es then 1 else 0)
-  | SHeader (d, es) -> Printf.sprintf "s%ch%d:ok" (char_of_dir d) (if es then 1 else 0)
+  | PHeader (d, _, es) -> Printf.sprintf "p%ch%d:ok" (char_of_dir d) (if es then 1 else 0)
+  | SHeader (d, _, es) -> Printf.sprintf "s%ch%d:ok" (char_of_dir d) (if es then 1 else 0)
   | PMsg (d, data, es) ->
       Printf.sprintf "p%cm%d:%s" (char_of_dir d) (if es then 1 else 0)
         (match data with None -> "N" | Some b -> hex_of_chars b)
@@ -158,8 +158,7 @@ let judge _name ins outs =
       (* which streams are gRPC is pinned here independently of the model's regenerated
          constants: some HEADERS carried content-type exactly application/grpc *)
       let spec_grpc = List.exists (function
-          | OpHeader (_, hs, false) ->
-              List.exists (fun (n, v) -> string_of_chars n = "content-type" && string_of_chars v = "application/grpc") hs
+          | OpHeader (_, hs, false) -> std_is_grpc hs     (* extracted; = is_grpc by theorem C11_detection_is_exact_content_type *)
           | _ -> false) ops in
       if spec_grpc <> enabled p then
         Some ("grpc_detection", Printf.sprintf "stream is %sgRPC by its content-type but the adapter treats it as %sgRPC"
@@ -167,31 +166,28 @@ let judge _name ins outs =
       else
       if not (enabled p) then begin
         (* not gRPC: DATA must reach the sink untouched, the processor sees nothing *)
-        let want = List.map (fun (b, es) -> (b, es)) frames in
-        if calls <> [] then Some ("non_grpc_untouched", "processor was shown messages of a non-gRPC stream")
-        else if datas <> want then
-          Some ("non_grpc_untouched", Printf.sprintf "sink got %d DATA, script had %d, or bytes/flags differ" (List.length datas) (List.length want))
+        if not (untouched_ok frames calls datas) then
+          Some ("non_grpc_untouched",
+                if calls <> [] then "processor was shown messages of a non-gRPC stream"
+                else Printf.sprintf "sink got %d DATA, script had %d, or bytes/flags differ" (List.length datas) (List.length frames))
         else (if List.length frames >= 1 then nontrivial := true; None)
       end else begin
         let e = get_enc d p in
         (* the codec the gRPC spec prescribes for the grpc-encoding value this direction
            announced, read here independently of the model's (regenerated) table *)
-        let announced =
+        let announced_v =
           List.fold_left (fun acc o -> match o with
-              | OpHeader (d', hs, false) when d' = d ->
-                  List.fold_left (fun acc (n, v) ->
-                      if string_of_chars n = "grpc-encoding" then Some (string_of_chars v) else acc) acc hs
+              | OpHeader (d', hs, false) when d' = d -> announced acc hs    (* extracted *)
               | _ -> acc) None ops in
-        let spec_enc = match announced with
-          | None | Some "identity" -> Some Identity
-          | Some "gzip" -> Some Gzip | Some "deflate" -> Some Deflate | Some "snappy" -> Some Snappy
-          | Some _ -> None in
+        let spec_enc = match announced_v with
+          | None -> Some Identity
+          | Some v -> std_enc_of_name v in                                (* extracted *)
         if spec_enc <> None && spec_enc <> Some e then
           Some ("encoding_selection", Printf.sprintf "dir=%c grpc-encoding=%s but the adapter decodes with codec %c" dc
-                  (match announced with Some a -> a | None -> "<none>") (char_of_enc e))
+                  (match announced_v with Some a -> string_of_chars a | None -> "<none>") (char_of_enc e))
         else
         if not (has_spec && is_partition ms frames && es_only_last frames
-                && decodable decomp e ms) then None
+                && decodable decomp e ms && lens_ok decomp comp e ms) then None
         else begin
           let esl = last_es frames in
           if List.length ms >= 1 && List.length frames >= 2 then nontrivial := true;
